@@ -103,11 +103,11 @@ def run(ctx):
         good = True
         why = []
         for r, p in roots:
-            if r[0] != 'call' or not (P.call_name(r) or '').endswith('::fetch_add'):
+            if not P.is_call(r, 'fetch_add'):
                 good = False
                 why.append('id comes from %s' % P.describe(r))
                 continue
-            args = P.call_args(r)
+            args = P.args_of(r)
             recv_ok = any(rr[0] == 'param' and counter_field in P.fpath(pp) for rr, pp in P.root(args[0])) if args else False
             # the receiver may be an upvar of the async body: resolve_env handles it; accept param of any enclosing body
             one = len(args) > 1 and const_int(args[1]) == 1
@@ -204,7 +204,7 @@ def run(ctx):
             R.ob('C01.2', ('dispatch poll', 'stored sender belongs to the same request'), ok_s,
                  'the completion sender stored under the key is a field of the same dequeued request', [g.loc(t)])
             # the dequeued request is an item of the request queue
-            q_ok = all(r[0] == 'call' and (P.call_name(r) or '').endswith('mpsc::Receiver::poll_recv') for r, p in P.root(kt))
+            q_ok = all(P.is_call(r, 'mpsc::Receiver::poll_recv') for r, p in P.root(kt))
             R.ob('C01.2', ('dispatch poll', 'request comes from the request queue'), q_ok,
                  'the transmitted request is an item received from the handle->dispatch queue', [g.loc(t)])
 
@@ -241,10 +241,10 @@ def run(ctx):
         for bb, t in g.calls():
             if callee_is(t, 'oneshot::Sender::send'):
                 roots = P.root(P.operand(g, t['args'][0]))
-                ok = bool(roots) and all(r[0] == 'call' and callee_is(P.call_term(r), 'HashMap::remove', 'HashMap::remove_entry') and sender_field in P.fpath(p) for r, p in roots)
+                ok = bool(roots) and all(P.is_call(r, 'HashMap::remove', 'HashMap::remove_entry') and sender_field in P.fpath(p) for r, p in roots)
                 R.ob('C01.4', ('client table completing removal', 'sender is the removed entry\'s'), ok,
                      'the sender completed is the one stored in the entry just removed', [g.loc(t)])
-                rm = lambda x: any(r[0] == 'call' and callee_is(P.call_term(r), 'HashMap::remove', 'HashMap::remove_entry') for r, _ in P.root(x))
+                rm = lambda x: any(P.is_call(r, 'HashMap::remove', 'HashMap::remove_entry') for r, _ in P.root(x))
                 gs = guarded_by_variant(F, P, g, bb, rm, ['Some'])
                 R.ob('C01.4', ('client table completing removal', 'miss path has no effect'), bool(gs),
                      'completion happens only on the Some edge of the removal; a miss neither sends nor removes anything else', [g.loc(t)])
@@ -252,7 +252,7 @@ def run(ctx):
     for g in table.bodies(comp):
         for bb, t in g.calls():
             if callee_is(t, 'DelayQueue::remove', 'DelayQueue::clear', 'HashMap::insert', 'HashMap::clear', 'HashMap::drain', 'util::Compact::compact', 'HashMap::shrink_to'):
-                rm = lambda x: any(r[0] == 'call' and callee_is(P.call_term(r), 'HashMap::remove', 'HashMap::remove_entry') for r, _ in P.root(x))
+                rm = lambda x: any(P.is_call(r, 'HashMap::remove', 'HashMap::remove_entry') for r, _ in P.root(x))
                 gs = guarded_by_variant(F, P, g, bb, rm, ['Some'])
                 R.ob('C01.4', ('client table completing removal', 'mutation only on hit', strip_generics(t['callee'])), bool(gs),
                      'table mutation inside the completing removal is guarded by the hit edge', [g.loc(t)])
@@ -264,7 +264,7 @@ def run(ctx):
         vt = P.operand(g, t['args'][cval - 1])
         shapes = value_shapes(ctx, P, vt)
         kr = P.root(kt, through_params=True)
-        from_queue = bool(kr) and all(r[0] == 'call' and (P.call_name(r) or '').endswith('mpsc::Receiver::poll_recv') for r, _ in kr)
+        from_queue = bool(kr) and all(P.is_call(r, 'mpsc::Receiver::poll_recv') for r, _ in kr)
         if shapes <= {'Err'}:
             R.ob('C01.5', ('completing removal call', F.enclosing_item(g).npath, 'Err-only'), True,
                  'this completion site can only deliver Err', [g.loc(t)], 'key from request queue item: %s' % from_queue)
@@ -272,7 +272,7 @@ def run(ctx):
         n_ok_sites += 1
         # must be the response path: key and value from the same transport item
         vr = P.root(vt, through_params=True)
-        transport_item = lambda r: r[0] == 'call' and callee_is(P.call_term(r), 'Stream::poll_next') and 'Fuse<' in (P.call_term(r).get('self_ty') or '')
+        transport_item = lambda r: P.is_call(r, 'Stream::poll_next') and 'Fuse<' in (P.call_term(P.unbound(r)).get('self_ty') or '')
         same = [(x, px, py) for (x, px) in kr for (y, py) in vr if x == y]
         ok = bool(kr) and bool(vr) and all(transport_item(r) for r, _ in kr) and all(transport_item(r) for r, _ in vr) and bool(same) \
             and all(norm_path(px)[:-1] == norm_path(py)[:-1] for _, px, py in same)
